@@ -441,8 +441,9 @@ impl BitVector for Bv {
 
 impl Hash for Bv {
     fn hash<H: Hasher>(&self, state: &mut H) {
-        self.len().hash(state);
-        for i in 0..Self::int_len::<u64>(self) {
+        let significant = self.significant_bits();
+        significant.hash(state);
+        for i in 0..(significant + 63) / 64 {
             self.get_int::<u64>(i).unwrap().hash(state);
         }
     }
